@@ -124,3 +124,31 @@ void h_concatenate(void) {
   REACH();
 }
 #endif
+
+/* substring by cursors and by indices: characters SUB_S .. SUB_E-1 of the string (constants of the instance, so that the new
+ * byte store has an exact size); and rejection of every cursor pair outside 0 <= start <= end <= size (symbolic) */
+#ifdef SUB_S
+void h_substring(void) {
+  sexp ctx = setup();
+#ifdef BY_INDEX
+  sexp r = sexp_utf8_substring_op(ctx, SEXP_FALSE, 3, (sexp)&str_obj, sexp_make_fixnum(SUB_S), sexp_make_fixnum(SUB_E));
+#else
+  sexp r = sexp_substring_op(ctx, SEXP_FALSE, 3, (sexp)&str_obj, sexp_make_string_cursor(WSUM(SUB_S)), sexp_make_string_cursor(WSUM(SUB_E)));
+#endif
+  OBL(view_ok(r, SUB_E - SUB_S, in_cp + SUB_S), "substring.model: cp(result) == cp(s)[start .. end), well-formed, inside its own byte store");
+  OBL(sexp_stringp(r) && sexp_string_size(r) == NEWSIZE && ((char*)sexp_string_data(r))[NEWSIZE] == 0, "substring.size_nul: exact byte size, NUL-terminated");
+  OBL(sexp_stringp(r) && sexp_string_bytes(r) != (sexp)&bytes_obj, "substring.fresh: the result does not share the byte store of its argument");
+  OBL(view_ok((sexp)&str_obj, NCH, in_cp), "substring.frame: the argument is unchanged");
+  REACH();
+}
+void h_substring_range(void) {
+  sexp ctx = setup();
+  long st = nondet_long(), en = nondet_long();
+  __CPROVER_assume(st >= -4 && st <= SIZE + 4 && en >= -4 && en <= SIZE + 4);
+  __CPROVER_assume(!(0 <= st && st <= en && en <= SIZE));
+  sexp r = sexp_substring_op(ctx, SEXP_FALSE, 3, (sexp)&str_obj, sexp_make_string_cursor(st), sexp_make_string_cursor(en));
+  OBL(sexp_exceptionp(r), "substring.range: cursors outside 0 <= start <= end <= size are rejected");
+  OBL(alloc_calls == 0, "substring.range_no_alloc: nothing is allocated (and nothing copied) before the range check");
+  REACH();
+}
+#endif
